@@ -4,11 +4,12 @@ import IrefVerif.Lemmas.ResolveRel
 /-!
 # Where relativisation does round-trip
 
-C15 as a whole is false of the code (open finding F12).  On the class the function was written
-for it is true, and proved here on the model: same scheme, equal authorities, absolute paths, no
-query or fragment on `a`, and a non-empty remainder of `a`'s segments (without empty segments)
-after the common prefix with `b`'s directory.  Then `a.relative_to(b)` is `../`… followed by the
-remainder, and resolving it against `b` gives a URI/IRI equal to `a`.
+Proved here on the model of the repaired `relative_to`: same scheme, equal authorities, absolute
+paths (the base's may be empty), a target that is not the root, the "same document" shortcut not
+taken, and — the part of F15 that `relative_to` steers around — a remainder that does not begin
+with an empty segment unless a common directory precedes it.  Then `a.relative_to(b)` is `../`…
+for what is left of `b`'s directory followed by what is left of `a` (its last segment always), and
+resolving it against `b` gives a URI/IRI equal to `a`.
 -/
 
 set_option linter.unusedSimpArgs false
@@ -19,26 +20,32 @@ open IrefVerif IrefVerif.RE IrefVerif.Spec IrefVerif.Model IrefVerif.Oracle Iref
 /-! ## the common prefix -/
 
 theorem dropCommon_spec : ∀ (A B : List Text), (∀ s ∈ A, wellEscaped s = true) → (∀ s ∈ B, wellEscaped s = true) →
-    ∃ ca cb, A = ca ++ (Ref.dropCommon A B).1 ∧ B = cb ++ (Ref.dropCommon A B).2 ∧
-      ca.map pctDecode = cb.map pctDecode := by
+    ∃ ca cb, A = ca ++ (Ref.dropCommon A B).1 ∧ B = cb ++ (Ref.dropCommon A B).2.1 ∧
+      ca.map pctDecode = cb.map pctDecode ∧ ((Ref.dropCommon A B).2.2 = true ↔ cb ≠ []) ∧
+      (A ≠ [] → (Ref.dropCommon A B).1 ≠ []) := by
   intro A
   induction A with
-  | nil => intro B _ _; cases B <;> exact ⟨[], [], rfl, rfl, rfl⟩
+  | nil => intro B _ _; cases B <;> exact ⟨[], [], rfl, rfl, rfl, by simp [Ref.dropCommon], fun h => absurd rfl h⟩
   | cons a as ih =>
     intro B hA hB
-    cases B with
-    | nil => exact ⟨[], [], rfl, rfl, rfl⟩
-    | cons b bs =>
-      simp only [Ref.dropCommon, pctEq_eq a b (hA a List.mem_cons_self) (hB b List.mem_cons_self)]
-      by_cases hd : pctDecode a = pctDecode b
-      · have : (some (pctDecode a == pctDecode b) == some true) = true := by simp [hd]
-        simp only [this, if_true]
-        obtain ⟨ca, cb, h1, h2, h3⟩ := ih bs (fun s hs => hA s (List.mem_cons_of_mem _ hs))
-          (fun s hs => hB s (List.mem_cons_of_mem _ hs))
-        exact ⟨a :: ca, b :: cb, by rw [List.cons_append, ← h1], by rw [List.cons_append, ← h2], by simp [hd, h3]⟩
-      · have : (some (pctDecode a == pctDecode b) == some true) = false := by simp [hd]
-        simp only [this, Bool.false_eq_true, if_false]
-        exact ⟨[], [], rfl, rfl, rfl⟩
+    cases as with
+    | nil =>
+      cases B <;> exact ⟨[], [], rfl, rfl, rfl, by simp [Ref.dropCommon], fun _ => by simp [Ref.dropCommon]⟩
+    | cons a2 as' =>
+      cases B with
+      | nil => exact ⟨[], [], rfl, rfl, rfl, by simp [Ref.dropCommon], fun _ => by simp [Ref.dropCommon]⟩
+      | cons b bs =>
+        simp only [Ref.dropCommon, pctEq_eq a b (hA a List.mem_cons_self) (hB b List.mem_cons_self)]
+        by_cases hd : pctDecode a = pctDecode b
+        · have : (some (pctDecode a == pctDecode b) == some true) = true := by simp [hd]
+          simp only [this, if_true]
+          obtain ⟨ca, cb, h1, h2, h3, _, h5⟩ := ih bs (fun s hs => hA s (List.mem_cons_of_mem _ hs))
+            (fun s hs => hB s (List.mem_cons_of_mem _ hs))
+          exact ⟨a :: ca, b :: cb, by rw [List.cons_append, ← h1], by rw [List.cons_append, ← h2], by simp [hd, h3],
+            by simp, fun _ => h5 (by simp)⟩
+        · have : (some (pctDecode a == pctDecode b) == some true) = false := by simp [hd]
+          simp only [this, Bool.false_eq_true, if_false]
+          exact ⟨[], [], rfl, rfl, rfl, by simp, fun _ => by simp⟩
 
 /-! ## what `pushAll` writes onto an empty relative reference -/
 
@@ -350,6 +357,40 @@ section
 variable (G : Grammar) (ok : Grammar.Ok G) (okp : Grammar.OkPath G)
 include ok okp
 
+/-- what is left of `a`'s normalised segments (its last one always), what is left of the normalised
+directory of `b`, and whether a common directory was dropped -/
+def remainder (a b : Text) : List Text × List Text × Bool :=
+  Ref.dropCommon (nsegs (split a).path) (nsegs (Path.parent_or_empty (split b).path))
+
+/-- the segments of the relative reference: `..` for what is left of `b`'s directory, then what is
+left of `a` -/
+def relSegs (a b : Text) : List Text :=
+  ((remainder a b).2.1.map fun _ => segDotDot) ++ (remainder a b).1
+
+omit ok okp in
+theorem head_not_dotdot {L : List Text} (df : DotFree L) : (L.head? == some [cDot, cDot]) = false := by
+  cases L with
+  | nil => rfl
+  | cons x xs =>
+    have : x ≠ segDotDot := fun e => df.2 (e ▸ List.mem_cons_self)
+    simpa [segDotDot] using this
+
+omit ok okp in
+theorem renderRel_ne_nil (L : List Text) (hne : L ≠ []) (hns : ∀ s ∈ L, cSlash ∉ s) : renderRel L ≠ [] := by
+  cases hLc : L with
+  | nil => exact absurd hLc hne
+  | cons x xs =>
+    unfold renderRel
+    simp only []
+    split
+    · simp
+    · rename_i hsh
+      have hsh' : (fsc x || x.isEmpty) = false := by simpa using hsh
+      simp only [Bool.or_eq_false_iff] at hsh'
+      cases x with
+      | nil => simp at hsh'
+      | cons c r => cases xs <;> simp [joinSlash]
+
 /-- **what `relative_to` returns on the class**: `./`? `../` for every remaining segment of `b`'s
 directory, then the remaining segments of `a` -/
 theorem relative_to_explicit (oka : Grammar.OkAuth G) (we : Grammar.OkWE G) (a b aa ab : Text)
@@ -357,15 +398,12 @@ theorem relative_to_explicit (oka : Grammar.OkAuth G) (we : Grammar.OkWE G) (a b
     (hsch : (split a).scheme = (split b).scheme)
     (haa : (split a).authority = some aa) (hab : (split b).authority = some ab) (hauth : authKey aa = authKey ab)
     (hpa : isAbs (split a).path = true) (hpb : isAbs (split b).path = true ∨ (split b).path = [])
+    (hne : nsegs (split a).path ≠ [])
+    (hcls : (!(remainder a b).2.2 && (remainder a b).1.head? == some []) = false)
     (hnsp : (((split a).query.isSome || (split a).fragment.isSome) &&
-      some (renderRel
-        (((Ref.dropCommon (nsegs (split a).path) (nsegs (Path.parent_or_empty (split b).path))).2.map fun _ => segDotDot) ++
-          (Ref.dropCommon (nsegs (split a).path) (nsegs (Path.parent_or_empty (split b).path))).1))
-        == Path.last (split b).path) = false) :
-    Ref.relative_to a b = some (recompose (pathQF (renderRel
-      (((Ref.dropCommon (nsegs (split a).path) (nsegs (Path.parent_or_empty (split b).path))).2.map fun _ => segDotDot) ++
-        (Ref.dropCommon (nsegs (split a).path) (nsegs (Path.parent_or_empty (split b).path))).1))
-      (split a).query (split a).fragment)) := by
+      ((split a).query.isSome || (split b).query.isNone) &&
+      some (renderRel (relSegs a b)) == Path.last (split b).path) = false) :
+    Ref.relative_to a b = some (recompose (pathQF (renderRel (relSegs a b)) (split a).query (split a).fragment)) := by
   obtain ⟨vA, wA⟩ := split_valid G ok a ha
   obtain ⟨vO, wO⟩ := split_valid G ok b hb
   have hsa := ref_scheme_opt_recompose (split a) wA
@@ -375,43 +413,60 @@ theorem relative_to_explicit (oka : Grammar.OkAuth G) (we : Grammar.OkWE G) (a b
   have hpA := ref_path_recompose (split a) wA
   have hpO := ref_path_recompose (split b) wO
   have hqa := ref_query_recompose (split a) wA
+  have hqb := ref_query_recompose (split b) wO
   have hfa := ref_fragment_recompose (split a) wA
-  rw [Lemmas.recompose_split] at hsa hso hau hbu hpA hpO hqa hfa
-  have hbody : Ref.relative_body a b = some (recompose (pathQF (renderRel
-      (((Ref.dropCommon (nsegs (split a).path) (nsegs (Path.parent_or_empty (split b).path))).2.map fun _ => segDotDot) ++
-        (Ref.dropCommon (nsegs (split a).path) (nsegs (Path.parent_or_empty (split b).path))).1))
+  rw [Lemmas.recompose_split] at hsa hso hau hbu hpA hpO hqa hqb hfa
+  have hptA : PathText (split a).path := pathText_of_wf _ wA
+  have hptO : PathText (split b).path := pathText_of_wf _ wO
+  have hweA : wellEscaped (split a).path = true := path_we G we _ vA
+  have hweO : wellEscaped (split b).path = true := path_we G we _ vO
+  obtain ⟨hpw, hpp⟩ := parent_or_empty_props (split b).path
+  have hws : ∀ s ∈ nsegs (split a).path, wellEscaped s = true := nsegs_we _ hweA
+  have hwb : ∀ s ∈ nsegs (Path.parent_or_empty (split b).path), wellEscaped s = true := nsegs_we _ (hpw hweO)
+  -- the directory of the base is absolute, so both lists are dot-free
+  have hBab : (split b).path = [] ∨ ∃ q, (split b).path = cSlash :: q := by
+    rcases hpb with hpb | hpb
+    · right
+      cases hpp' : (split b).path with
+      | nil => rw [hpp'] at hpb; simp [isAbs] at hpb
+      | cons c t =>
+        rw [hpp'] at hpb
+        have : c = cSlash := by simpa [isAbs] using hpb
+        exact ⟨t, by rw [this]⟩
+    · exact .inl hpb
+  have he0 : nsegs (Path.parent_or_empty (split b).path) = nsegsOf true (segs (split b).path).dropLast := by
+    rcases hBab with e | ⟨q, hqb'⟩
+    · rw [e]; decide
+    · rw [hqb']
+      obtain ⟨⟨k, hk⟩, habs, _⟩ := parent_segs q
+      unfold nsegs
+      rw [habs, hk, nsegsOf_dots]
+  have hdfA : DotFree (nsegs (split a).path) := by
+    unfold nsegs; rw [hpa]; exact nsegsOf_abs_dotFree _
+  have hdfB : DotFree (nsegs (Path.parent_or_empty (split b).path)) := by rw [he0]; exact nsegsOf_abs_dotFree _
+  have hbody : Ref.relative_body a b = some (recompose (pathQF (renderRel (relSegs a b))
       (split a).query (split a).fragment)) := by
-    -- the path part
-    have hptA : PathText (split a).path := pathText_of_wf _ wA
-    have hptO : PathText (split b).path := pathText_of_wf _ wO
-    have hweA : wellEscaped (split a).path = true := path_we G we _ vA
-    have hweO : wellEscaped (split b).path = true := path_we G we _ vO
-    obtain ⟨hpw, hpp⟩ := parent_or_empty_props (split b).path
     unfold Ref.relative_body
-    simp only [hpA, hpO, hqa, hfa, normalized_segments_eq _ hptA, normalized_segments_eq _ (hpp hptO)]
-    have hws : ∀ s ∈ nsegs (split a).path, wellEscaped s = true := nsegs_we _ hweA
-    have hwb : ∀ s ∈ nsegs (Path.parent_or_empty (split b).path), wellEscaped s = true := nsegs_we _ (hpw hweO)
+    simp only [hpA, hpO, hqa, hqb, hfa, hbu, hab, normalized_segments_eq _ hptA, normalized_segments_eq _ (hpp hptO)]
+    -- both paths count as absolute
+    have habs : (Path.is_absolute (split a).path !=
+        (Path.is_absolute (split b).path || ((some ab).isSome && Path.is_empty (split b).path))) = false := by
+      rw [is_absolute_eq, is_absolute_eq, hpa]
+      rcases hpb with h | h
+      · rw [h]; rfl
+      · rw [h]; rfl
+    simp only [habs, Bool.false_eq_true, if_false, head_not_dotdot hdfA, head_not_dotdot hdfB, Bool.or_self]
     rw [dropCommonPanics_false _ _ hws hwb]
-    -- with an empty base path the directory has no segment and nothing is dropped: the same pair
-    have hpair : (if (Path.is_absolute (split a).path == Path.is_absolute (split b).path) = true then
-          Ref.dropCommon (nsegs (split a).path) (nsegs (Path.parent_or_empty (split b).path))
-        else (nsegs (split a).path, nsegs (Path.parent_or_empty (split b).path)))
-        = Ref.dropCommon (nsegs (split a).path) (nsegs (Path.parent_or_empty (split b).path)) := by
-      rcases hpb with hpb | hpb
-      · have : (Path.is_absolute (split a).path == Path.is_absolute (split b).path) = true := by
-          rw [is_absolute_eq, is_absolute_eq, hpa, hpb]; rfl
-        simp only [this, if_true]
-      · rw [hpb]
-        have h1 : (Path.is_absolute (split a).path == Path.is_absolute ([] : Text)) = false := by
-          rw [is_absolute_eq, hpa]; rfl
-        have h2 : nsegs (Path.parent_or_empty ([] : Text)) = [] := by decide
-        simp only [h1, Bool.false_eq_true, if_false, h2]
-        cases nsegs (split a).path <;> rfl
-    simp only [Bool.and_false, Bool.false_eq_true, if_false]
-    rw [hpair]
-    generalize hd : Ref.dropCommon (nsegs (split a).path) (nsegs (Path.parent_or_empty (split b).path)) = d at hnsp
-    obtain ⟨ss, bs⟩ := d
-    simp only [] at hnsp ⊢
+    simp only [Bool.false_eq_true, if_false]
+    have hcls' := hcls
+    unfold remainder at hcls'
+    simp only [hcls', Bool.false_eq_true, if_false]
+    unfold relSegs remainder at hnsp ⊢
+    obtain ⟨ca, cb, hA, hB, _, _, hssne⟩ := dropCommon_spec (nsegs (split a).path)
+      (nsegs (Path.parent_or_empty (split b).path)) hws hwb
+    generalize hd : Ref.dropCommon (nsegs (split a).path) (nsegs (Path.parent_or_empty (split b).path)) = d at hnsp hA hB hssne
+    obtain ⟨ss, bs, cm⟩ := d
+    simp only [] at hnsp hA hB hssne ⊢
     -- every pushed segment is free of `/`, `?`, `#`
     have hsegA : ∀ s ∈ nsegs (split a).path, cSlash ∉ s ∧ PathText s := by
       intro s hs
@@ -421,8 +476,7 @@ theorem relative_to_explicit (oka : Grammar.OkAuth G) (we : Grammar.OkWE G) (a b
       exact mem_of_mem_splitSlash' _ s this c hc
     have hss : ∀ s ∈ ss, cSlash ∉ s ∧ PathText s := by
       intro s hs
-      have := (dropCommon_subset (nsegs (split a).path) (nsegs (Path.parent_or_empty (split b).path))).1 s (by rw [hd]; exact hs)
-      exact hsegA s this
+      exact hsegA s (by rw [hA]; exact List.mem_append_right _ hs)
     have hups : ∀ s ∈ (bs.map fun _ => segDotDot), cSlash ∉ s ∧ PathText s := by
       intro s hs
       simp only [List.mem_map] at hs
@@ -431,23 +485,31 @@ theorem relative_to_explicit (oka : Grammar.OkAuth G) (we : Grammar.OkWE G) (a b
     have e1 := pushAll_renderRel (bs.map fun _ => segDotDot) [] (by simpa using hups)
     simp only [renderRel, List.nil_append] at e1
     have e1' : Ref.pushAll [] (List.map (fun _ => [cDot, cDot]) bs) = some (renderRel (bs.map fun _ => segDotDot)) := e1
-    have e2 := pushAll_renderRel ss (bs.map fun _ => segDotDot) (by
+    have hLall : ∀ x ∈ (bs.map fun _ => segDotDot) ++ ss, cSlash ∉ x ∧ PathText x := by
       intro x hx
       rcases List.mem_append.mp hx with h | h
       · exact hups x h
-      · exact hss x h)
+      · exact hss x h
+    have e2 := pushAll_renderRel ss (bs.map fun _ => segDotDot) hLall
     simp only [Option.bind_eq_bind, e1', Option.bind_some, e2]
-    -- the special case does not fire; then the query and the fragment of `a` are set
-    obtain ⟨hpt, hfc, hsS, _⟩ := renderRel_props ((bs.map fun _ => segDotDot) ++ ss) (by
-      intro x hx
-      rcases List.mem_append.mp hx with h | h
-      · exact hups x h
-      · exact hss x h)
+    obtain ⟨hpt, hfc, hsS, hrelp⟩ := renderRel_props ((bs.map fun _ => segDotDot) ++ ss) hLall
     have wf := wf_pathOnly _ hpt hfc hsS
     have hp2 : Ref.path (renderRel ((bs.map fun _ => segDotDot) ++ ss)) = renderRel ((bs.map fun _ => segDotDot) ++ ss) := by
       have := ref_path_recompose _ wf
       rwa [recompose_pathOnly] at this
-    rw [hp2, hnsp]
+    -- something was pushed: no closing empty segment
+    have hLne : (bs.map fun _ => segDotDot) ++ ss ≠ [] := by
+      intro e
+      exact hssne hne (List.append_eq_nil_iff.mp e).2
+    have hRne := renderRel_ne_nil _ hLne (fun s hs => (hLall s hs).1)
+    have hnem : Path.is_empty (renderRel ((bs.map fun _ => segDotDot) ++ ss)) = false := by
+      rw [is_empty_rel hrelp]
+      cases hr : renderRel ((bs.map fun _ => segDotDot) ++ ss) with
+      | nil => exact absurd hr hRne
+      | cons c t => rfl
+    simp only [hp2, hnem, Bool.false_eq_true, if_false, Option.bind_some]
+    -- the special case does not fire; then the query and the fragment of `a` are set
+    rw [hnsp]
     simp only [Bool.false_eq_true, if_false, Option.bind_some]
     have q1 := set_query_recompose _ wf (split a).query
     rw [recompose_pathOnly] at q1
@@ -488,21 +550,17 @@ theorem relative_roundtrip (oka : Grammar.OkAuth G) (we : Grammar.OkWE G) (a b a
     (hsch : (split a).scheme = (split b).scheme)
     (haa : (split a).authority = some aa) (hab : (split b).authority = some ab) (hauth : authKey aa = authKey ab)
     (hpa : isAbs (split a).path = true) (hpb : isAbs (split b).path = true ∨ (split b).path = [])
+    (hne : nsegs (split a).path ≠ [])
+    (hcls : (!(remainder a b).2.2 && (remainder a b).1.head? == some []) = false)
     (hnsp : (((split a).query.isSome || (split a).fragment.isSome) &&
-      some (renderRel
-        (((Ref.dropCommon (nsegs (split a).path) (nsegs (Path.parent_or_empty (split b).path))).2.map fun _ => segDotDot) ++
-          (Ref.dropCommon (nsegs (split a).path) (nsegs (Path.parent_or_empty (split b).path))).1))
-        == Path.last (split b).path) = false)
-    (hrem : (Ref.dropCommon (nsegs (split a).path) (nsegs (Path.parent_or_empty (split b).path))).1 ≠ [] ∧
-      ((Ref.dropCommon (nsegs (split a).path) (nsegs (Path.parent_or_empty (split b).path))).2.length
-          < (nsegs (Path.parent_or_empty (split b).path)).length ∨
-        (Ref.dropCommon (nsegs (split a).path) (nsegs (Path.parent_or_empty (split b).path))).1.head? ≠ some [])) :
+      ((split a).query.isSome || (split b).query.isNone) &&
+      some (renderRel (relSegs a b)) == Path.last (split b).path) = false) :
     ∃ r t, Ref.relative_to a b = some r ∧ Ref.resolve r b = some t ∧ key t = key a := by
   have haR : Matches G.reference a := Matches.altL ha
   have hbR : Matches G.reference b := Matches.altL hb
   obtain ⟨vA, wA⟩ := split_valid G ok a haR
   obtain ⟨vB, wB⟩ := split_valid G ok b hbR
-  have hrel := relative_to_explicit G ok okp oka we a b aa ab haR hbR hsch haa hab hauth hpa hpb hnsp
+  have hrel := relative_to_explicit G ok okp oka we a b aa ab haR hbR hsch haa hab hauth hpa hpb hne hcls hnsp
   obtain ⟨r', er', vr'⟩ := relative_to_total G ok okp oka we a b haR hbR
   rw [hrel] at er'
   simp only [Option.some.injEq] at er'
@@ -530,11 +588,14 @@ theorem relative_roundtrip (oka : Grammar.OkAuth G) (we : Grammar.OkWE G) (a b a
       obtain ⟨⟨k, hk⟩, habs, _⟩ := parent_segs q
       unfold nsegs
       rw [habs, hk, nsegsOf_dots]
-  obtain ⟨ca, cb, hA, hB, hcab⟩ := dropCommon_spec (nsegs (split a).path) (nsegs (Path.parent_or_empty (split b).path))
+  obtain ⟨ca, cb, hA, hB, hcab, hcm, hssne⟩ := dropCommon_spec (nsegs (split a).path) (nsegs (Path.parent_or_empty (split b).path))
     (nsegs_we _ hweA) (nsegs_we _ (hpw hweB))
-  generalize hd : Ref.dropCommon (nsegs (split a).path) (nsegs (Path.parent_or_empty (split b).path)) = d at hrel er' hrem hA hB
-  obtain ⟨ss, bs⟩ := d
-  simp only [] at hrel er' hrem hA hB
+  unfold relSegs remainder at hrel er'
+  unfold remainder at hcls
+  generalize hd : Ref.dropCommon (nsegs (split a).path) (nsegs (Path.parent_or_empty (split b).path)) = d at hrel er' hcls hA hB hcm hssne
+  obtain ⟨ss, bs, cm⟩ := d
+  simp only [] at hrel er' hcls hA hB hcm hssne
+  have hrem1 : ss ≠ [] := hssne hne
   -- segments of `a` are dot-free and free of `/`
   have hdfA : DotFree (nsegs (split a).path) := by
     unfold nsegs; rw [hpa]; exact nsegsOf_abs_dotFree _
@@ -546,20 +607,19 @@ theorem relative_roundtrip (oka : Grammar.OkAuth G) (we : Grammar.OkWE G) (a b a
   -- nothing is skipped: the common prefix is not empty, or the remainder does not begin with an
   -- empty segment
   have hstart : cb ≠ [] ∨ ss.head? ≠ some [] := by
-    rcases hrem.2 with h | h
-    · left
-      intro e
-      rw [e, List.nil_append] at hB
-      rw [hB] at h
-      exact Nat.lt_irrefl _ h
-    · exact .inr h
+    by_cases hc : cm = true
+    · exact .inl (hcm.mp hc)
+    · right
+      have hc' : cm = false := by simpa using hc
+      rw [hc'] at hcls
+      simpa using hcls
   have hnsA : ∀ s ∈ nsegs (split a).path, cSlash ∉ s := fun s hs => segs_no_slash _ s (nsegsOf_subset _ _ s hs)
   have hnsB : ∀ s ∈ nsegs (Path.parent_or_empty (split b).path), cSlash ∉ s :=
     fun s hs => segs_no_slash _ s (nsegsOf_subset _ _ s hs)
   -- the relative reference
   obtain ⟨L, hL⟩ : ∃ L, L = (bs.map fun _ => segDotDot) ++ ss := ⟨_, rfl⟩
   rw [← hL] at hrel er'
-  have hLne : L ≠ [] := by rw [hL]; intro e; exact hrem.1 (List.append_eq_nil_iff.mp e).2
+  have hLne : L ≠ [] := by rw [hL]; intro e; exact hrem1 (List.append_eq_nil_iff.mp e).2
   have hLns : ∀ s ∈ L, cSlash ∉ s ∧ PathText s := by
     intro s hs
     rw [hL] at hs
@@ -578,20 +638,7 @@ theorem relative_roundtrip (oka : Grammar.OkAuth G) (we : Grammar.OkWE G) (a b a
   have hsplit : split R = pathQF (renderRel L) (split a).query (split a).fragment := by
     rw [hRdef]; exact Lemmas.split_recompose _ wfr
   have hvr : Matches G.reference R := by rw [er']; exact vr'
-  have hRne : renderRel L ≠ [] := by
-    cases hLc : L with
-    | nil => exact absurd hLc hLne
-    | cons x xs =>
-      unfold renderRel
-      simp only []
-      split
-      · simp
-      · rename_i hsh
-        have hsh' : (fsc x || x.isEmpty) = false := by simpa using hsh
-        simp only [Bool.or_eq_false_iff] at hsh'
-        cases x with
-        | nil => simp at hsh'
-        | cons c r => cases xs <;> simp [joinSlash]
+  have hRne : renderRel L ≠ [] := renderRel_ne_nil L hLne (fun s hs => (hLns s hs).1)
   -- the segments of the reference path, and why nothing is skipped while they are appended
   have hS : splitSlash (renderRel L) = L ∨ splitSlash (renderRel L) = segDot :: L :=
     splitSlash_renderRel L hLne (fun s hs => (hLns s hs).1)
@@ -631,8 +678,8 @@ theorem relative_roundtrip (oka : Grammar.OkAuth G) (we : Grammar.OkWE G) (a b a
     · rw [walk_dot, hL, walk_append, walk_ups bs cb hdf, (walk_nodots ss cb hplain hstart).1]
   have hld : lastDot (splitSlash (renderRel L)) = false := by
     rcases hS with e | e <;> rw [e, hL]
-    · exact lastDot_nodots _ ss hrem.1 hplain
-    · rw [← List.cons_append]; exact lastDot_nodots _ ss hrem.1 hplain
+    · exact lastDot_nodots _ ss hrem1 hplain
+    · rw [← List.cons_append]; exact lastDot_nodots _ ss hrem1 hplain
   rw [hwalk, hld] at hrd
   simp only [Bool.false_and, Bool.false_eq_true, if_false, List.append_nil] at hrd
   -- the key of the result
@@ -649,7 +696,7 @@ theorem relative_roundtrip (oka : Grammar.OkAuth G) (we : Grammar.OkWE G) (a b a
     rcases List.mem_append.mp hs with h | h
     · exact hnsB s (by rw [hB]; exact List.mem_append_left _ h)
     · exact hnsA s (by rw [hA]; exact List.mem_append_right _ h)
-  have hXne : cb ++ ss ≠ [] := fun e => hrem.1 (List.append_eq_nil_iff.mp e).2
+  have hXne : cb ++ ss ≠ [] := fun e => hrem1 (List.append_eq_nil_iff.mp e).2
   have hXl : cb ++ ss ≠ [[]] := by
     intro e
     cases hcb : cb with
@@ -661,7 +708,7 @@ theorem relative_roundtrip (oka : Grammar.OkAuth G) (we : Grammar.OkWE G) (a b a
     | cons c cs =>
       rw [hcb] at e
       simp only [List.cons_append, List.cons.injEq] at e
-      exact hrem.1 (List.append_eq_nil_iff.mp e.2).2
+      exact hrem1 (List.append_eq_nil_iff.mp e.2).2
   have hXdf : DotFree (cb ++ ss) := by
     refine ⟨fun h => ?_, fun h => ?_⟩
     · rcases List.mem_append.mp h with h | h
